@@ -21,6 +21,9 @@ def family():
     ok("v2:get", "V2 header, GET object", A.v2_header())
     ok("v2:subresource", "V2 header with signed sub-resources", A.v2_header("GET", "/bkt/key", pairs=[("versionId", "3"), ("response-content-type", "text/plain")]))
     ok("v2:subresource-flag", "V2 header with a value-less sub-resource", A.v2_header("GET", "/bkt", pairs=[("uploads", "")]))
+    ok("v2:subresource-torrent", "V2 header, GET ?torrent (a signed sub-resource of the V2 specification)", A.v2_header("GET", "/bkt/key", pairs=[("torrent", "")]))
+    ok("v2:subresource-all", "V2 header with several sub-resources in non-alphabetical order",
+       A.v2_header("GET", "/bkt/key", pairs=[("versionId", "v"), ("response-expires", "x"), ("partNumber", "2"), ("acl", "")]))
     ok("v2:unsigned-query", "V2 header with a query parameter that is not a sub-resource", A.v2_header("GET", "/bkt", pairs=[("prefix", "a")]))
     ok("v2:amz-headers", "V2 header with x-amz-* headers incl. a repeated name",
        A.v2_header(extra_headers=[("x-amz-meta-b", "2"), ("x-amz-meta-a", "1"), ("x-amz-meta-b", " 3 ")]))
